@@ -665,12 +665,16 @@ def format_terms(ctx, kind, fmt, args):
 def opaque_format(ctx, kind, fmt, args):
     """assumed contract for formatting with a symbolic format string"""
     ctx.assumed_models.add("str %s-formatting with a symbolic format: function of (format, args); may raise "
-                           "TypeError/ValueError" % kind)
+                           "TypeError/ValueError/OverflowError" % kind)
     ok, res, et, msg = format_terms(ctx, kind, fmt, args)
     if ctx.decide(ok):
         return mkstr([Opq(res)])
-    which = ctx.decide(et)
-    raise Raised(ExcObj(TypeError if which else ValueError, (), note=msg))
+    if ctx.decide(et):
+        raise Raised(ExcObj(TypeError, (), note=msg))
+    # e.g. '%c' % 0x110000 raises OverflowError
+    if ctx.decide(ufun('fmt_err_is_overflow_' + kind, PyStr, z3.BoolSort())(msg)):
+        raise Raised(ExcObj(OverflowError, (), note=msg))
+    raise Raised(ExcObj(ValueError, (), note=msg))
 
 
 def expand_fmt(ctx, f):
